@@ -10,7 +10,7 @@
                           UPDATE / DELETE   stmt-BEFORE, BEFORE ROW of all rows, change, AFTER ROW of all rows,
                                             stmt-AFTER   [spec_two_pass]. *)
 From Coq Require Import List ZArith Bool Permutation.
-From VibeSQL Require Import Store.Trigger Store.Atomic Store.TriggerLaws Store.AtomicLaws.
+From VibeSQL Require Import Store.Trigger Store.Atomic Store.TriggerLaws Store.AtomicLaws Store.AppliedLaws.
 Import ListNotations.
 
 Theorem C34_insert_fires_once : forall f ctx d t tb rows d' log n vrows,
@@ -37,6 +37,19 @@ Theorem C34_delete_fires_once : forall f ctx d t w d' log n tb,
   log = spec_two_pass ctx (d_trigs d) t EvDelete (delete_images ctx tb w).
 Proof. exact exec_delete_fires_once. Qed.
 Print Assumptions C34_delete_fires_once.
+
+(** OLD and NEW are the row's pre- and post-image: for a successful UPDATE whose trigger bodies leave the table alone,
+    every row-level firing saw as OLD the row stored at some position before the statement and as NEW the row stored
+    at that position afterwards *)
+Theorem C34_update_images_pre_post : forall f ctx d t asg w d' log n tb,
+  exec (S f) ctx d (SUpdate t asg w) = (d', log, Ok n) -> frame_on f t ->
+  wf d -> get_table d t = Some tb -> references t tb = [] ->
+  exists tb', get_table d' t = Some tb' /\
+    forall fi, In fi log -> t_gran (f_trig fi) = GRow ->
+      exists i old new, f_old fi = Some old /\ f_new fi = Some new
+                        /\ nth_error (tb_rows tb) i = Some old /\ nth_error (tb_rows tb') i = Some new.
+Proof. exact exec_update_images_pre_post. Qed.
+Print Assumptions C34_update_images_pre_post.
 
 (** the two-pass order is a permutation of the per-row order: every (trigger, affected row) pair of the per-row
     specification occurs exactly as often in the list the code produces *)
